@@ -64,7 +64,9 @@ class Check:
         self.seed = seed
         self.replay = replay
         self.t0 = time.time()
-        self.build = os.path.join(BUILD, pid)
+        # one scratch directory per (property, tree under test): a mutation experiment with VERIF_REPO
+        # must not clobber the files of a run against /repo
+        self.build = os.path.join(BUILD, pid if REPO == "/repo" else pid + "@" + hashlib.sha1(REPO.encode()).hexdigest()[:8])
         shutil.rmtree(self.build, ignore_errors=True)
         os.makedirs(self.build, exist_ok=True)
         self.obligations = []      # (name, ok:bool, detail)
